@@ -1,7 +1,7 @@
 (* Extraction of the executable model to OCaml (ExtrOcamlBasic only; N, Z, positive, nat stay datatypes). *)
 Require Extraction.
 Require Import ExtrOcamlBasic.
-From DictIO Require Import Chars Str Value Scalar KeyPath SDict Layout Lexer TokParser.
+From DictIO Require Import Chars Str Value Scalar KeyPath SDict Layout Lexer TokParser Reader.
 Extraction Blacklist String List Nat Bool Str.
 Cd "../ocaml/extracted".
 Separate Extraction
@@ -13,5 +13,6 @@ Separate Extraction
   KeyPath.get_path KeyPath.py_str
   SDict.sd_trace SDict.sd_clean SDict.sd_order SDict.sd_merge SDict.sd_update
   Layout.to_string_plain Layout.foam_to_string_plain Layout.to_string_sd Layout.foam_to_string_sd
-  Lexer.lex TokParser.parse_tokens TokParser.parse_string TokParser.levels.
+  Lexer.lex TokParser.parse_tokens TokParser.parse_string TokParser.levels
+  Reader.read_plain Reader.json_parse Reader.norm_path.
 Cd "../../coq".
